@@ -3,10 +3,13 @@ from lib import vf, opxlib
 
 LEVEL = "model_checking"
 SRC = "engines/opx/sc_c10.cpp"
+SRC_SINKS = ["engines/seqx/c10_sinks.cpp"]
+FLAGS_SINKS = ["-O1", "-g"]
 
 
 def prebuild():
     opxlib.build("sc_c10", SRC)
+    vf.build("c10_sinks", SRC_SINKS, FLAGS_SINKS)
 
 
 FAULTS = [{}, {"s1w": 1}, {"s1w": 2}, {"s1w": 3}, {"s1f": 1}, {"s1f": 2}, {"s2w": 1}, {"s2w": 2}, {"s2w": 3}]
@@ -74,8 +77,24 @@ def run(ctx):
     ctx.set_deadline(170 if ctx.tier == "quick" else 1800)
     exe = opxlib.build("sc_c10", SRC)
     opxlib.run_jobs(ctx, exe, jobs(ctx.tier), "sc_c10", explorers=8, workers=2)
+    # (C) faults raised inside the library's own sinks (their before_write hook throws on chosen writes), files read back;
+    # a sink failing on one of the statements replayed from the backtrace ring
+    import os, shutil, tempfile
+    d = tempfile.mkdtemp(prefix="quill-verif-c10.", dir="/dev/shm" if os.path.isdir("/dev/shm") else None)
+    try:
+        ctx.absorb(vf.run(vf.build("c10_sinks", SRC_SINKS, FLAGS_SINKS), ["--dir", d], timeout=600), "c10_sinks")
+    finally:
+        shutil.rmtree(d, ignore_errors=True)
+    ctx.rule += ("; (C) FileSink / JsonFileSink / RotatingFileSink / RotatingJsonFileSink whose before_write hook throws on one or two of "
+                 "five writes (every position), named and positional statements, handled one by one or in one batch: the file holds every "
+                 "other statement once, whole and in order, each failure reported and no failure reported for other statements; a sink that "
+                 "throws on the 1st / 2nd / 3rd statement replayed by flush_backtrace() or by an error statement: only that statement is "
+                 "missing, nothing is written twice by the next backtrace flush")
     ctx.assumptions.append("sinks throw std::exception-derived errors only (as the property states); user formatters throw anything")
 
 
 def replay(rep, extra):
+    if "scenario" not in rep["record"]:
+        print("deterministic sink-fault case (%s): re-run ./check C10" % rep["record"].get("case"))
+        return 2
     return opxlib.replay("C10", opxlib.build("sc_c10", SRC), rep)
